@@ -199,8 +199,9 @@ Lemma check_v2_accept : forall e outs total dpos,
   check_v2 e outs total dpos = Accept -> v2_shape e total dpos outs.
 Proof.
   intros e outs total dpos H. unfold check_v2 in H.
-  destruct outs as [| o0 [| o1 rest]]; try discriminate.
+  destruct outs as [| o0 rest0]; try discriminate.
   destruct (Z.eqb_spec (o_val o0) (ceil30 total)); cbn [negb] in H; [| discriminate].
+  destruct rest0 as [| o1 rest]; try discriminate.
   destruct (Z.eqb_spec (o_val o1) (sub64 (sub64 total (ceil30 total)) (ceil35 total))); cbn [negb] in H; [| discriminate].
   destruct rest as [| o2 [| o3 rest]]; try discriminate.
   destruct (Z.eqb_spec (o_val o2) dpos); cbn [negb] in H; [| discriminate].
